@@ -11,6 +11,7 @@
 -/
 import NemoVerif.Lemmas.Embed
 import NemoVerif.Lemmas.EmbedProgress
+import NemoVerif.Lemmas.EmbedMulti
 namespace NemoVerif.C19
 open NemoVerif NemoVerif.Embed
 
@@ -74,6 +75,119 @@ example :
 theorem cached_needs_injective_keys :
     (cachedCall { enabled := true, persistent := true } (String.length) (fun s : String => s) [] ["ab", "cd"]).2
       ≠ [some "ab", some "cd"] := by decide
+
+/-! ### several indexes (models, key generators, cache configurations, store locations) in one process -/
+
+/-- **cached_correct_multi.**  Any number of indexes, each with its own embedding model `f`, key generator `g`
+    and cache configuration, the stores identified by location; ANY interleaving of their calls at the
+    granularity of the wrapper's two atomic sections (`begin i texts` … model awaited, other calls of any
+    index run … `finish k`).  PROVIDED two indexes using one store location never produce the same key for
+    texts their models embed differently — `NoForeignShare`: true when stores are not shared between indexes
+    with different models, and true of the repaired key derivation (model identity in the key) whatever is
+    shared; evaluated by the harness on the real store objects, real keys and model vectors of every case —
+    every call that has returned, returned the CALLING index's model's vector of each of its texts in
+    input order, and every location is still correct for every index using it.
+    Without the hypothesis the statement is false of the code: `cached_multi_shared_store_as_is_counterexample`. -/
+theorem cached_correct_multi (U : α → Prop) (ixs : List (IndexCfg α κ β)) (hinj : ∀ a ∈ ixs, InjOn a.g U)
+    (hsh : NoForeignShare U ixs) (st0 : Stores κ β) (hst : StoresOK U ixs st0)
+    (ls : List (MLabel α)) (hl : ∀ l ∈ ls, MLabelOK U l) (s : MState α κ β)
+    (h : mrun ixs { stores := st0, pending := [], returned := [] } ls = some s) :
+    (∀ e ∈ s.returned, ∃ ix, ixs[e.1]? = some ix ∧ e.2.2 = e.2.1.map (fun t => some (ix.f t))) ∧
+    StoresOK U ixs s.stores := by
+  have h0 : MInv U ixs ({ stores := st0, pending := [], returned := [] } : MState α κ β) :=
+    ⟨hst, by intro e he; simp at he, by intro e he; simp at he⟩
+  have := minv_run hinj hsh ls hl h0 h
+  exact ⟨this.returned, this.stores⟩
+
+/-- The same for whole (un-interleaved) calls in any order of the indexes — the function the driver runs
+    against the real objects: the k-th result is the k-th caller's own model applied to its texts. -/
+theorem cached_calls_correct_multi (U : α → Prop) (ixs : List (IndexCfg α κ β)) (hinj : ∀ a ∈ ixs, InjOn a.g U)
+    (hsh : NoForeignShare U ixs) (ops : List (Nat × List α)) :
+    ∀ (st : Stores κ β), StoresOK U ixs st → (∀ op ∈ ops, ∀ t ∈ op.2, U t) →
+      (multiCalls ixs st ops).2 = ops.map (fun op => match ixs[op.1]? with
+        | some ix => op.2.map (fun t => some (ix.f t))
+        | none => []) ∧
+      StoresOK U ixs (multiCalls ixs st ops).1 := by
+  induction ops with
+  | nil => intro st hs _; exact ⟨rfl, hs⟩
+  | cons op rest ih =>
+    intro st hs hU
+    obtain ⟨i, ts⟩ := op
+    cases hi : ixs[i]? with
+    | none =>
+      have h1 : multiCall ixs st i ts = (st, []) := by simp [multiCall, hi]
+      obtain ⟨h3, h4⟩ := ih st hs (fun op h => hU op (List.mem_cons_of_mem _ h))
+      simp only [multiCalls, List.map_cons, h1, hi]
+      exact ⟨by rw [h3], h4⟩
+    | some ix =>
+      obtain ⟨h1, h2⟩ := multiCall_spec U ixs hinj hsh st hs i ts (hU (i, ts) (by simp)) ix hi
+      obtain ⟨h3, h4⟩ := ih _ h2 (fun op h => hU op (List.mem_cons_of_mem _ h))
+      simp only [multiCalls, List.map_cons, hi]
+      exact ⟨by rw [h1, h3], h4⟩
+
+/-- a whole call is the two sections back to back -/
+theorem multiCall_is_begin_finish (ixs : List (IndexCfg α κ β)) (st : Stores κ β) (i : Nat) (texts : List α)
+    (ix : IndexCfg α κ β) (hi : ixs[i]? = some ix) :
+    mrun ixs { stores := st, pending := [], returned := [] } [.begin i texts, .finish 0] =
+      some { stores := (multiCall ixs st i texts).1, pending := [],
+             returned := [(i, texts, (multiCall ixs st i texts).2)] } := by
+  have htx : (beginCall ix.cfg ix.g (storeAt st ix.loc) texts).texts = texts := by
+    unfold beginCall callBegin; split <;> rfl
+  simp [mrun, mstep, multiCall, cachedCall, hi, htx]
+
+/-- Two indexes with DIFFERENT models (`+7` / `+100`) and an injective key generator, used in the
+    non-vacuity example (separate locations) and in the counterexample (one location). -/
+def twoIndexes (loc₁ loc₂ : Nat) : List (IndexCfg String Nat Nat) :=
+  [{ cfg := { enabled := true, persistent := true }, g := String.length, f := fun s => s.length + 7, loc := loc₁ },
+   { cfg := { enabled := true, persistent := true }, g := String.length, f := fun s => s.length + 100, loc := loc₂ }]
+
+/-- non-vacuity of `cached_correct_multi` / `cached_calls_correct_multi`: the hypotheses hold for two indexes
+    with different models on different store locations (and `InjOn` for texts of different length) … -/
+example : NoForeignShare (fun s : String => s = "a" ∨ s = "") (twoIndexes 0 1) ∧
+    (∀ a ∈ twoIndexes 0 1, InjOn a.g (fun s : String => s = "a" ∨ s = "")) := by
+  refine ⟨?_, ?_⟩
+  · intro a ha b hb hloc _ _ t t' ht ht' hk
+    simp only [twoIndexes, List.mem_cons, List.mem_nil_iff, or_false] at ha hb
+    rcases ha with rfl | rfl <;> rcases hb with rfl | rfl <;> simp at hloc <;>
+      rcases ht with rfl | rfl <;> rcases ht' with rfl | rfl <;>
+      first | rfl | (exact absurd hk (by decide))
+  · intro a ha x y hx hy hxy
+    simp only [twoIndexes, List.mem_cons, List.mem_nil_iff, or_false] at ha
+    rcases ha with rfl | rfl <;> rcases hx with rfl | rfl <;> rcases hy with rfl | rfl <;>
+      first | rfl | (exact absurd hxy (by decide))
+
+/-- The proposed repair (model identity part of the key: keys of the two models are even / odd) with BOTH
+    indexes on ONE store location: the hypothesis holds — no key is shared — and each index gets its own
+    vectors (finite facts). -/
+def twoIndexesKeyed : List (IndexCfg String Nat Nat) :=
+  [{ cfg := { enabled := true, persistent := true }, g := fun s => 2 * s.length, f := fun s => s.length + 7, loc := 0 },
+   { cfg := { enabled := true, persistent := true }, g := fun s => 2 * s.length + 1, f := fun s => s.length + 100, loc := 0 }]
+
+example : NoForeignShare (fun s : String => s = "a" ∨ s = "") twoIndexesKeyed ∧
+    (multiCalls twoIndexesKeyed [] [(0, ["a", ""]), (1, ["a"]), (0, ["a"]), (1, ["", "a"])]).2
+      = [[some 8, some 7], [some 101], [some 8], [some 100, some 101]] := by
+  refine ⟨?_, by decide⟩
+  intro a ha b hb _ _ _ t t' ht ht' hk
+  simp only [twoIndexesKeyed, List.mem_cons, List.mem_nil_iff, or_false] at ha hb
+  rcases ha with rfl | rfl <;> rcases hb with rfl | rfl <;>
+    rcases ht with rfl | rfl <;> rcases ht' with rfl | rfl <;>
+    first | rfl | (exact absurd hk (by decide))
+
+/-- … and the interleaved run "index 0 begins, index 1 begins and finishes, index 0 finishes, index 1 hits its
+    cache" returns each index's own vectors (finite fact, by evaluation). -/
+example :
+    ((mrun (twoIndexes 0 1) { stores := [], pending := [], returned := [] }
+        [.begin 0 ["a", ""], .begin 1 ["", "a"], .finish 1, .finish 0, .begin 1 ["a"], .finish 0]).map
+      (fun s => s.returned.map (fun e => (e.1, e.2.2)))) =
+      some [(1, [some 101]), (0, [some 8, some 7]), (1, [some 100, some 101])] := by decide
+
+/-- **cached_multi_shared_store_as_is_counterexample.**  The code as it is: the cache key is derived from the
+    text only, so two indexes with different models whose configurations name ONE store location serve each
+    other's vectors — the second index gets the first model's vector (8 instead of 101).  Kernel-checked;
+    replayed on the real objects (corpus `multi.json`, open finding `shared-store-different-models`). -/
+theorem cached_multi_shared_store_as_is_counterexample :
+    (multiCalls (twoIndexes 0 0) [] [(0, ["a"]), (1, ["a"])]).2 = [[some 8], [some 8]] ∧
+    (multiCalls (twoIndexes 0 1) [] [(0, ["a"]), (1, ["a"])]).2 = [[some 8], [some 101]] := by decide
 
 /-! ### request batching: safety under every schedule -/
 
